@@ -119,3 +119,47 @@ impl Querier for NoQuerier {
         SystemResult::Err(SystemError::Unknown {})
     }
 }
+
+/// What a contract can ask the chain: bank balances (from the simulated bank, as they are at the moment of
+/// the call) and wasmd's per-contract metadata (creator and migration admin: two accounts that hold no role
+/// in the contract's own storage). Everything else is an unsupported request.
+pub struct ChainQuerier<'a> {
+    pub bank: &'a BTreeMap<(String, String), u128>,
+    pub contract: String,
+}
+
+pub fn chain_creator() -> String {
+    crate::bech::addr("osmo", "chain-creator", 20)
+}
+pub fn chain_migration_admin() -> String {
+    crate::bech::addr("osmo", "chain-migration-admin", 20)
+}
+
+impl Querier for ChainQuerier<'_> {
+    fn raw_query(&self, bin_request: &[u8]) -> QuerierResult {
+        use cosmwasm_std::{BankQuery, ContractResult, Empty, QueryRequest, WasmQuery};
+        let req: QueryRequest<Empty> = match cosmwasm_std::from_json(bin_request) {
+            Ok(r) => r,
+            Err(e) => return SystemResult::Err(SystemError::InvalidRequest { error: e.to_string(), request: bin_request.into() }),
+        };
+        let ok = |v: serde_json::Value| SystemResult::Ok(ContractResult::Ok(cosmwasm_std::Binary::from(serde_json::to_vec(&v).unwrap())));
+        match req {
+            QueryRequest::Bank(BankQuery::Balance { address, denom }) => {
+                let a = self.bank.get(&(address, denom.clone())).copied().unwrap_or(0);
+                ok(serde_json::json!({"amount": {"denom": denom, "amount": a.to_string()}}))
+            }
+            QueryRequest::Bank(BankQuery::AllBalances { address }) => {
+                let coins: Vec<serde_json::Value> = self.bank.iter().filter(|((who, _), a)| *who == address && **a > 0).map(|((_, d), a)| serde_json::json!({"denom": d, "amount": a.to_string()})).collect();
+                ok(serde_json::json!({"amount": coins}))
+            }
+            QueryRequest::Wasm(WasmQuery::ContractInfo { contract_addr }) => {
+                if contract_addr == self.contract {
+                    ok(serde_json::json!({"code_id": 7, "creator": chain_creator(), "admin": chain_migration_admin(), "pinned": false, "ibc_port": null}))
+                } else {
+                    SystemResult::Err(SystemError::NoSuchContract { addr: contract_addr })
+                }
+            }
+            _ => SystemResult::Err(SystemError::UnsupportedRequest { kind: "not modelled by the simulated chain".into() }),
+        }
+    }
+}
